@@ -1105,6 +1105,30 @@ func (t PtrType) Coq(needs_paren bool) string {
 	return "ptrT"
 }
 
+// reservedWords are Coq's keywords, the keywords of its prelude's notations,
+// and the words that form a GooseLang notation token when followed by a colon
+// (as a definition name is).
+var reservedWords = map[string]bool{
+	"Axiom": true, "CoFixpoint": true, "Definition": true, "Fixpoint": true,
+	"Hypothesis": true, "IF": true, "Parameter": true, "Prop": true,
+	"SProp": true, "Set": true, "Theorem": true, "Type": true,
+	"Variable": true, "as": true, "at": true, "by": true, "cofix": true,
+	"discriminated": true, "else": true, "end": true, "exists": true,
+	"exists2": true, "fix": true, "for": true, "forall": true, "fun": true,
+	"if": true, "in": true, "lazymatch": true, "let": true, "match": true,
+	"multimatch": true, "return": true, "then": true, "using": true,
+	"where": true, "with": true,
+	// keywords of notations of Coq's prelude
+	"mod": true,
+	"rec": true, "λ": true,
+}
+
+// IsReservedWord reports whether name cannot be used as the name of a Coq
+// definition.
+func IsReservedWord(name string) bool {
+	return reservedWords[name]
+}
+
 func MethodName(tyName string, funcName string) string {
 	return fmt.Sprintf("%s__%s", tyName, funcName)
 }
